@@ -284,6 +284,21 @@ let process line =
       (match dec cs scan_p cap (z_of_int c) s (mk_ustream (bytes_of_hex hex)) with
        | Ok (s', i) -> "R ok pos=" ^ string_of_z i.s_pos ^ " good=" ^ b01 i.s_good ^ " eof=" ^ b01 i.s_eof ^ " |" ^ dump c s'
        | Err e -> "R err " ^ err_name e)
+  | "RT" :: c :: hex :: ntail :: _ ->
+      (* as R, with ntail filler bytes behind the encoding; long byte members are abbreviated *)
+      let c = int_of_string c in
+      let hex = if hex = "-" then "" else hex in
+      let rec fill n acc = if n <= 0 then acc else fill (n - 1) (z_of_int 0x5a :: acc) in
+      let bytes = bytes_of_hex hex @ fill (int_of_string ntail) [] in
+      let abbreviate d =
+        String.concat " " (List.map (fun tok ->
+          match String.index_opt tok '=' with
+          | Some e when e + 1 < String.length tok && tok.[e + 1] = 'x' && String.length tok - e - 2 > 64 ->
+              String.sub tok 0 e ^ "=#" ^ string_of_int ((String.length tok - e - 2) / 2)
+          | _ -> tok) (List.filter (fun w -> w <> "") (String.split_on_char ' ' d))) in
+      (match dec cs scan_p cap (z_of_int c) (fresh cs (z_of_int c)) (mk_ustream bytes) with
+       | Ok (s', i) -> "RT ok pos=" ^ string_of_z i.s_pos ^ " good=" ^ b01 i.s_good ^ " eof=" ^ b01 i.s_eof ^ " | " ^ abbreviate (dump c s')
+       | Err e -> "RT err " ^ err_name e)
   | "D" :: c :: hex :: _ ->
       (* decode into a fresh object, then encode the decoded object again *)
       let c = int_of_string c in
